@@ -1,3 +1,4 @@
+import OtelVerif.Gen.MetricsTemporal
 /-! Model of `sdk/src/metrics/state/temporal_metric_storage.cc` (`TemporalMetricStorage::buildMetrics`) and of the
     `Sum` aggregation (`sum_aggregation.cc`), for C06 / C17.
 
@@ -63,8 +64,9 @@ def setAt {α : Type} (f : Nat → α) (i : Nat) (x : α) : Nat → α := fun j 
 def stashAll (n : Nat) (u : Nat → Option (List DMap)) (δ : DMap) : Nat → Option (List DMap) :=
   fun r => if r < n then some ((u r).getD [] ++ [δ]) else u r
 
-/-- the fast path is taken when there is exactly one collector and it asks for delta temporality -/
-def fastPath (n : Nat) (temp : Temporality) : Bool := n == 1 && temp == .delta
+/-- the fast path is taken when there is exactly one collector (the number is re-extracted from the source:
+    `Gen.temporalFastPathCollectors`) and it asks for delta temporality -/
+def fastPath (n : Nat) (temp : Temporality) : Bool := n == Gen.temporalFastPathCollectors && temp == .delta
 
 /-- `TemporalMetricStorage::buildMetrics(collector r, collectors (n of them), sdk_start_ts = 0, collection_ts = now,
     delta_metrics = δ, callback)`; `temp` = `collector->GetAggregationTemporality(...)`.
